@@ -14,6 +14,7 @@ package main
 import (
 	"errors"
 	"fmt"
+	"io"
 
 	"github.com/lni/dragonboat/v4/config"
 	"github.com/lni/dragonboat/v4/raftio"
@@ -76,6 +77,52 @@ func readBack(db raftio.ILogDB, k key) (image, error) {
 
 // save us[0..cut) one SaveRaftState call each, cut the power, reopen, read back
 func probeOnce(ps probeStore, us []upd, cut int) (evs []event, err error) {
+	var batches [][]upd
+	for i := 0; i < cut; i++ {
+		batches = append(batches, []upd{us[i]})
+	}
+	return probeRun(ps, batches, nil)
+}
+
+type fileImage map[string][]byte
+
+func snapshotFiles(fs *gvfs.MemFS, dir string, out fileImage) {
+	names, err := fs.List(dir)
+	if err != nil {
+		return
+	}
+	for _, n := range names {
+		p := fs.PathJoin(dir, n)
+		if st, err := fs.Stat(p); err == nil && st.IsDir() {
+			snapshotFiles(fs, p, out)
+			continue
+		}
+		f, err := fs.Open(p)
+		if err != nil {
+			continue
+		}
+		b, _ := io.ReadAll(f)
+		_ = f.Close()
+		out[p] = b
+	}
+}
+
+func powerCut(fs *gvfs.MemFS, db raftio.ILogDB) {
+	fs.SetIgnoreSyncs(true)
+	_ = vh.Catch(func() { _ = db.Close() })
+	fs.ResetToSyncedState()
+	fs.SetIgnoreSyncs(false)
+}
+
+// probeRun: every element of batches is ONE SaveRaftState call (the updates of several
+// replicas a step worker saves together). After the last acknowledged call:
+//   torn == nil: power cut, reopen, read back.
+//   torn != nil: the batch torn is being written when the power fails: nothing of it was
+//   fsynced, but the first half of the bytes it appended reached the disk (a torn record at
+//   the tail of the log). Reopen (the store repairs its log), read back, cut the power AGAIN
+//   at once, reopen, read back: everything acknowledged before the first failure must still
+//   be there.
+func probeRun(ps probeStore, batches [][]upd, torn []upd) (evs []event, err error) {
 	fs := gvfs.NewStrictMem()
 	var db raftio.ILogDB
 	if p := vh.Catch(func() { db, err = openStore(ps, fs) }); p != "" {
@@ -85,57 +132,123 @@ func probeOnce(ps probeStore, us []upd, cut int) (evs []event, err error) {
 		return nil, fmt.Errorf("open %s: %v", ps.name, err)
 	}
 	keys := map[key]bool{}
-	for i := 0; i < cut; i++ {
-		u := us[i]
-		pu := toPBUpdate(u)
-		for j := range pu.EntriesToSave {
-			pu.EntriesToSave[j].Cmd = []byte{byte(pu.EntriesToSave[j].Index)}
+	toPB := func(us []upd) []pb.Update {
+		var out []pb.Update
+		for _, u := range us {
+			pu := toPBUpdate(u)
+			for j := range pu.EntriesToSave {
+				pu.EntriesToSave[j].Cmd = []byte{byte(pu.EntriesToSave[j].Index), 1, 2, 3, 4, 5, 6, 7, 8, 9, 10, 11, 12, 13, 14, 15}
+			}
+			pu.Messages = nil
+			out = append(out, pu)
 		}
-		pu.Messages = nil
+		return out
+	}
+	for i, us := range batches {
+		pus := toPB(us)
 		var serr error
-		if p := vh.Catch(func() { serr = db.SaveRaftState([]pb.Update{pu}, pu.ShardID%2+1) }); p != "" {
+		if p := vh.Catch(func() { serr = db.SaveRaftState(pus, pus[0].ShardID%2+1) }); p != "" {
 			return nil, fmt.Errorf("SaveRaftState %s: panic %s", ps.name, p)
 		}
 		if serr != nil {
 			return nil, fmt.Errorf("SaveRaftState %s: %v", ps.name, serr)
 		}
-		k := key{u.shard, u.replica}
-		keys[k] = true
-		for _, m := range u.msgs {
-			if monitorFree(m.typ) {
-				evs = append(evs, event{kind: 'Q', k: k, worker: 1, m: m})
+		for _, u := range us {
+			k := key{u.shard, u.replica}
+			for _, m := range u.msgs {
+				if monitorFree(m.typ) {
+					evs = append(evs, event{kind: 'Q', k: k, worker: 1, m: m})
+				}
 			}
 		}
-		// SaveRaftState returned: from here on the update is acknowledged as durable
-		evs = append(evs, event{kind: 'P', k: k, worker: 1, batch: uint64(i + 1), u: u})
-		for _, m := range u.msgs {
-			if !monitorFree(m.typ) {
-				evs = append(evs, event{kind: 'Q', k: k, worker: 1, m: m})
+		// SaveRaftState returned: from here on the updates are acknowledged as durable
+		for _, u := range us {
+			k := key{u.shard, u.replica}
+			keys[k] = true
+			evs = append(evs, event{kind: 'P', k: k, worker: 1, batch: uint64(i + 1), u: u})
+		}
+		for _, u := range us {
+			k := key{u.shard, u.replica}
+			for _, m := range u.msgs {
+				if !monitorFree(m.typ) {
+					evs = append(evs, event{kind: 'Q', k: k, worker: 1, m: m})
+				}
 			}
 		}
 	}
-	// power cut
-	fs.SetIgnoreSyncs(true)
-	_ = vh.Catch(func() { _ = db.Close() })
-	fs.ResetToSyncedState()
-	fs.SetIgnoreSyncs(false)
-	evs = append(evs, event{kind: 'X'})
-	if p := vh.Catch(func() { db, err = openStore(ps, fs) }); p != "" || err != nil {
-		// the store cannot be opened from what survived: nothing is read back
-		for k := range keys {
-			evs = append(evs, event{kind: 'F', k: k, index: 0})
+	readAll := func() bool {
+		if p := vh.Catch(func() { db, err = openStore(ps, fs) }); p != "" || err != nil {
+			// the store cannot be opened from what survived: nothing is read back
+			err = nil
+			for _, k := range sortedKeySet(keys) {
+				evs = append(evs, event{kind: 'F', k: k, index: 0})
+			}
+			return false
+		}
+		for _, k := range sortedKeySet(keys) {
+			var img image
+			var rerr error
+			if p := vh.Catch(func() { img, rerr = readBack(db, k) }); p != "" || rerr != nil {
+				evs = append(evs, event{kind: 'F', k: k, index: 0})
+				continue
+			}
+			evs = append(evs, event{kind: 'C', k: k, rec: img})
+		}
+		return true
+	}
+	if torn == nil {
+		powerCut(fs, db)
+		evs = append(evs, event{kind: 'X'})
+		if readAll() {
+			_ = vh.Catch(func() { _ = db.Close() })
 		}
 		return evs, nil
 	}
-	defer func() { _ = vh.Catch(func() { _ = db.Close() }) }()
-	for _, k := range sortedKeySet(keys) {
-		var img image
-		var rerr error
-		if p := vh.Catch(func() { img, rerr = readBack(db, k) }); p != "" || rerr != nil {
-			evs = append(evs, event{kind: 'F', k: k, index: 0})
+	// first power failure, in the middle of writing the batch torn
+	before := fileImage{}
+	snapshotFiles(fs, "/probe", before)
+	fs.SetIgnoreSyncs(true)
+	pus := toPB(torn)
+	if p := vh.Catch(func() { _ = db.SaveRaftState(pus, pus[0].ShardID%2+1) }); p != "" {
+		return nil, fmt.Errorf("SaveRaftState (torn) %s: panic %s", ps.name, p)
+	}
+	after := fileImage{}
+	snapshotFiles(fs, "/probe", after)
+	powerCut(fs, db)
+	tornFiles := 0
+	cur := fileImage{}
+	snapshotFiles(fs, "/probe", cur)
+	for name, b := range after {
+		old, ok := before[name]
+		if !ok || len(b) <= len(old) || string(b[:len(old)]) != string(old) {
+			continue // not a file the cut write appended to
+		}
+		c, ok := cur[name]
+		if !ok || len(c) >= len(b) || string(b[:len(c)]) != string(c) {
 			continue
 		}
-		evs = append(evs, event{kind: 'C', k: k, rec: img})
+		delta := b[len(c):]
+		f, ferr := fs.OpenForAppend(name)
+		if ferr != nil {
+			continue
+		}
+		_, _ = f.Write(delta[:len(delta)/2])
+		_ = f.Sync()
+		_ = f.Close()
+		tornFiles++
+	}
+	if tornFiles == 0 {
+		return nil, fmt.Errorf("torn write %s: no appended file found", ps.name)
+	}
+	evs = append(evs, event{kind: 'X'})
+	if !readAll() {
+		return evs, nil
+	}
+	// second power failure right after the restart that repaired the log
+	powerCut(fs, db)
+	evs = append(evs, event{kind: 'X'})
+	if readAll() {
+		_ = vh.Catch(func() { _ = db.Close() })
 	}
 	return evs, nil
 }
@@ -239,6 +352,53 @@ func genProbeCases(r *vh.Rand, w *vh.LineWriter, tier string, peerTraces [][]eve
 				emit(ps, shape, cut, fmt.Sprintf("shape%d", si))
 			}
 		}
+	}
+	// two replicas of one host saved by ONE SaveRaftState call: shards 1 and 17 share a step
+	// worker and, with multiplexed logs, one tan db. All kind pairs, both orders.
+	emitRun := func(ps probeStore, batches [][]upd, torn []upd, what string) {
+		evs, err := probeRun(ps, batches, torn)
+		if err != nil {
+			notes["probe_errors"]++
+			fmt.Fprintf(stderrW, "c04: durability probe %s %s: %v\n", ps.name, what, err)
+			return
+		}
+		w.Printf("D%d live probe=%s store=%s | %s\n", n, what, ps.name, eventsStr(evs))
+		n++
+		notes["probes_"+ps.name]++
+	}
+	base := func(shard uint64) upd { return withEnts(st(shard, 1, 4, 0, 1), 1, 4, 4, 4) }
+	kinds := []string{"entries", "vote", "term", "commit"}
+	mk := func(kind string, shard uint64) upd {
+		switch kind {
+		case "entries":
+			return withMsg(withEnts(st(shard, 1, 4, 0, 1), 4, 4, 4), ack(1, 2, 4, 5))
+		case "vote":
+			return withMsg(st(shard, 1, 4, 2, 1), grant(1, 2, 4))
+		case "term":
+			return withMsg(st(shard, 1, 5, 2, 1), grant(1, 2, 5))
+		default:
+			return st(shard, 1, 4, 0, 2)
+		}
+	}
+	for _, ps := range probeStores {
+		for ai, ka := range kinds {
+			for bi, kb := range kinds {
+				if ps.name == "pebble" && tier != "thorough" && (ai+bi)%3 != 0 {
+					continue
+				}
+				for _, order := range [][2]uint64{{1, 17}, {17, 1}} {
+					batches := [][]upd{{base(1), base(17)}, {mk(ka, order[0]), mk(kb, order[1])}}
+					emitRun(ps, batches, nil, fmt.Sprintf("pair-%s-%s-%d", ka, kb, order[0]))
+				}
+			}
+		}
+	}
+	// double fault: torn tail, repair on restart, second power failure at once
+	for _, ps := range probeStores[:2] {
+		acked := [][]upd{{withEnts(st(2, 3, 4, 1, 1), 1, 4, 4, 4)}, {withMsg(withEnts(st(2, 3, 4, 1, 3), 4, 4, 4), ack(3, 1, 4, 5))}}
+		emitRun(ps, acked, []upd{withEnts(st(2, 3, 4, 1, 5), 6, 4, 4, 4)}, "torn-entries")
+		emitRun(ps, [][]upd{{base(1), base(17)}, {mk("vote", 1), mk("entries", 17)}}, []upd{mk("term", 1), withEnts(st(17, 1, 4, 0, 2), 6, 4, 4)}, "torn-pair")
+		emitRun(ps, [][]upd{{st(1, 1, 5, 0, 3)}, {withMsg(st(1, 1, 5, 2, 3), grant(1, 2, 5))}}, []upd{st(1, 1, 6, 0, 3)}, "torn-vote")
 	}
 	maxPeer := 40
 	if tier == "thorough" {
